@@ -103,3 +103,27 @@ def ast_cfg(afs, extra, entry, tier, **kw):
          'cross': ['cvc5', 'z3'] if tier == 'thorough' else [], 'max_violations': 40}
     c.update(kw)
     return c
+
+
+SPEC_REL = 'internal/ebnf/parser/spec'
+SPEC_PKG = MODULE + '/' + SPEC_REL
+SPEC_HDIR = os.path.join(HARNESS, SPEC_REL)
+
+
+def spec_files(sc, **params):
+    """Harness files for the spec package (parser.New presented stub-aware, as for the ast package)."""
+    _, extra = ast_files(sc, **params)
+    path = sc.path('zz_verif_spec_params.go')
+    with open(path, 'w') as f:
+        f.write('//go:build verif\n\npackage spec\n\nconst specK = %d\n' % params.get('specK', 5))
+    sfs = [os.path.join(SPEC_HDIR, f) for f in sorted(os.listdir(SPEC_HDIR)) if f.startswith('zz_verif_') and f.endswith('.go') and not f.endswith('_test.go')]
+    sfs.append(path)
+    return sfs, extra
+
+
+def spec_cfg(sfs, extra, entry, tier, **kw):
+    c = {'patterns': ['./' + SPEC_REL], 'pkg': SPEC_PKG, 'overlay': overlay_map(SPEC_REL, sfs, extra),
+         'init_pkgs': [MODULE + '/...', 'github.com/moorara/algo/...', 'io', 'unicode/utf8'], 'entry': entry,
+         'cross': ['cvc5', 'z3'] if tier == 'thorough' else [], 'max_violations': 40}
+    c.update(kw)
+    return c
